@@ -301,6 +301,24 @@ func (s *Server) Serve(c *Conn) (res Result) {
 	return res
 }
 
+// ServeConn runs engine.onData once on an existing buffered connection (used
+// to emulate a poller that re-enters the protocol server when more data is
+// readable). c is the scripted connection underneath nc.
+func (s *Server) ServeConn(nc network.Conn, c *Conn) (res Result) {
+	func() {
+		defer func() {
+			if r := recover(); r != nil {
+				res.Panic = r
+				res.Stack = string(debug.Stack())
+			}
+		}()
+		res.Err = s.tr.onData(context.Background(), nc)
+	}()
+	res.Output = c.Output()
+	res.Closed = c.Closed()
+	return res
+}
+
 // Close stops the engine.
 func (s *Server) Close() {
 	s.tr.Close()
